@@ -10,6 +10,25 @@ Driver for stream `witness` (C15). One op per line, one observation per line.
   enc <cond>                       -> <hex>                            (`encodeCond`, keys as 33 bytes)
   decs <hex>                       -> ok <signer> <rest-hex> | err    (`decodeSigner`; signer printed with full-width hashes)
   adm <depth> <cond>               -> ok | err                         (`admits`: the JSON / stack-item decoders)
+  rsi <item>                       -> ok <action> <cond> | err       (`ruleFromItem`: WitnessRule.FromStackItem)
+      item := N | T | F | I int | S hex | U hex | A n item^n | R n item^n | M | X
+              (null, true, false, Integer, ByteString, Buffer, Array, Struct, Map, Interop)
+  cjs <json>                       -> ok <cond> | err                 (`condFromJ`: UnmarshalConditionJSON)
+  rjs <json>                       -> ok <action> <cond> | err       (`ruleFromJ`: WitnessRule.UnmarshalJSON)
+      json := n | t | f | i int | s hex | a n json^n | o n (hex json)^n     (strings and keys as hex of their bytes)
+  x <contracts> <us> <tx> <xop>*   -> one item per OB / CW / CH, blank separated; a fault ends the line with fault:<class>
+                                      (the frame machine `VM.step`, `checkWitnessVM`, `checkWitnessArgVM`)
+      contracts := n (hash ngroups key^ngroups)^n
+      us := - | U signers          (ic.UseSigners)         tx := - | T signers   (ic.Tx; `-`: the container is no transaction)
+      xop := LW h160 f | LS h160 f | LD h160 f | LH h160 hash f | LN h160 caller hash f init | CL | RT | UW n
+           | CC target fs safe init | CT target fs safe init | RL h160 fs | NC caller target init
+           | VS hash | VC hash init | IS h160
+           | OB            -> o:<depth>,<current>,<calling>,<entry>,<flags>,<calledByEntry>
+           | OI            -> i:<current>,<calling>,<entry>,<flags>      (what the four syscalls return inside a contract)
+           | CW hex        -> true | false | err:nosigners | err:noreadstates | fault:badarg   (System.Runtime.CheckWitness)
+           | FE n          -> true | false : GetCallFlags() == n
+           | CQ hex        -> nothing when the check returns a boolean (its result is dropped), the fault otherwise
+           | CH hash       -> the same for runtime.CheckHashedWitness
 
 Token grammar (prefix form, blank separated; hashes and keys are hex numbers):
   cond    := B0 | B1 | N cond | A n cond^n | O n cond^n | H hash | G key | E | C hash | K key
@@ -19,6 +38,10 @@ Token grammar (prefix form, blank separated; hashes and keys are hex numbers):
 -/
 import NeoModel.Base.Proto
 import NeoModel.Model.Witness
+import NeoModel.Model.Witness.Arg
+import NeoModel.Model.Witness.Ripemd160
+import NeoModel.Model.Witness.Items
+import NeoModel.Model.Witness.Json
 open NeoModel NeoModel.Witness
 
 abbrev P (α : Type) := List String → Option (α × List String)
@@ -152,6 +175,217 @@ def showSigner (s : Signer) : String :=
     ++ s!" {s.allowedGroups.length}" ++ String.join (s.allowedGroups.map fun k => " " ++ hexW 66 k)
     ++ s!" {s.rules.length}" ++ showRules s.rules
 
+
+/-! ### executions of the frame machine -/
+
+inductive XOp where
+  | m (op : Op)
+  | ob
+  | oi
+  | fe (n : Nat)
+  | cw (arg : Bytes)
+  | cq (arg : Bytes)
+  | ch (h : Hash)
+
+def pBool : P Bool
+  | [] => none
+  | t :: r => if t == "1" then some (true, r) else if t == "0" then some (false, r) else none
+
+def pXOp : P XOp
+  | [] => none
+  | t :: r =>
+    if t == "LW" then do let (h, r) ← pHex r; let (f, r) ← pDec r; pure (.m (.loadWithFlags h f), r)
+    else if t == "LS" then do let (h, r) ← pHex r; let (f, r) ← pDec r; pure (.m (.loadScriptWithFlags h f), r)
+    else if t == "LD" then do let (h, r) ← pHex r; let (f, r) ← pDec r; pure (.m (.loadDynamicScript h f), r)
+    else if t == "LH" then do
+      let (h, r) ← pHex r; let (hash, r) ← pHex r; let (f, r) ← pDec r
+      pure (.m (.loadScriptWithHash h hash f), r)
+    else if t == "LN" then do
+      let (h, r) ← pHex r; let (c, r) ← pHex r; let (hash, r) ← pHex r; let (f, r) ← pDec r; let (i, r) ← pBool r
+      pure (.m (.loadNEFMethod h c hash f i), r)
+    else if t == "CL" then some (.m .call, r)
+    else if t == "RT" then some (.m .ret, r)
+    else if t == "UW" then do let (n, r) ← pDec r; pure (.m (.unwind n), r)
+    else if t == "CC" then do
+      let (tg, r) ← pHex r; let (f, r) ← pDec r; let (s, r) ← pBool r; let (i, r) ← pBool r
+      pure (.m (.contractCall tg f s i), r)
+    else if t == "CT" then do
+      let (tg, r) ← pHex r; let (f, r) ← pDec r; let (s, r) ← pBool r; let (i, r) ← pBool r
+      pure (.m (.callT tg f s i), r)
+    else if t == "RL" then do let (h, r) ← pHex r; let (f, r) ← pDec r; pure (.m (.runtimeLoadScript h f), r)
+    else if t == "NC" then do
+      let (c, r) ← pHex r; let (tg, r) ← pHex r; let (i, r) ← pBool r
+      pure (.m (.nativeCall c tg i), r)
+    else if t == "VS" then do let (h, r) ← pHex r; pure (.m (.verifyScript h), r)
+    else if t == "VC" then do let (h, r) ← pHex r; let (i, r) ← pBool r; pure (.m (.verifyContract h i), r)
+    else if t == "IS" then do let (h, r) ← pHex r; pure (.m (.invocationScript h), r)
+    else if t == "OB" then some (.ob, r)
+    else if t == "OI" then some (.oi, r)
+    else if t == "FE" then do let (n, r) ← pDec r; pure (.fe n, r)
+    else if t == "CW" then match r with
+      | [] => none
+      | x :: r' => (Hex.decode x).map fun bs => (.cw bs, r')
+    else if t == "CQ" then match r with
+      | [] => none
+      | x :: r' => (Hex.decode x).map fun bs => (.cq bs, r')
+    else if t == "CH" then do let (h, r) ← pHex r; pure (.ch h, r)
+    else none
+
+/-- fuel-bounded repetition until the tokens are exhausted. -/
+def pXOps : Nat → List String → Option (List XOp)
+  | _, [] => some []
+  | 0, _ => none
+  | f+1, ts => do
+    let (x, r) ← pXOp ts
+    let xs ← pXOps f r
+    pure (x :: xs)
+
+def pOptSigners (tag : String) : P (Option (List Signer))
+  | [] => none
+  | t :: r =>
+    if t == "-" then some (none, r)
+    else if t == tag then (pCounted pSigner r).map fun (ss, r') => (some ss, r')
+    else none
+
+/-- hex of a number without leading zeros (`0` for zero), as the harness prints hashes. -/
+def hexN (n : Nat) : String :=
+  if n == 0 then "0" else String.ofList (Nat.toDigits 16 n)
+
+def showFault : MFault → String
+  | .stackTooBig => "fault:stack"
+  | .noContext => "fault:nocontext"
+  | .missingCallFlags => "fault:missingflags"
+  | .flagsOutOfRange => "fault:flagsrange"
+  | .invalidCallFlags => "fault:invalidflags"
+
+def showObs (v : VM) : String :=
+  let top := v.istack.head?
+  let optN (o : Option Nat) : String := match o with | some n => toString n | none => "-"
+  let optH (o : Option Nat) : String := match o with | some n => hexN n | none => "-"
+  s!"o:{v.istack.length},{hexN v.currentHash},{optH v.callingHash},{hexN v.entryHash},{optN v.flags}," ++
+    (match top with | some s => (if s.isCalledByEntry then "1" else "0") | none => "-")
+
+/-- what the syscalls GetExecutingScriptHash / GetCallingScriptHash / GetEntryScriptHash / GetCallFlags return. -/
+def showInfo (v : VM) : String :=
+  let optN (o : Option Nat) : String := match o with | some n => toString n | none => "-"
+  let optH (o : Option Nat) : String := match o with | some n => hexN n | none => "-"
+  s!"i:{hexN v.currentHash},{optH v.callingHash},{hexN v.entryHash},{optN v.flags}"
+
+/-- the driver's stand-in for `keys.NewPublicKeyFromBytes` + `Bytes()`: 33 bytes 02/03 (as is) or 65 bytes 04
+(compressed by the parity of Y); the harness only feeds points that are on the curve, or malformed lengths /
+prefixes. -/
+def decKeyAny (bs : Bytes) : Option Bytes :=
+  match bs with
+  | [] => none
+  | p :: rest =>
+    if (p = 0x02 ∨ p = 0x03) ∧ bs.length = 33 then some bs
+    else if p = 0x04 ∧ bs.length = 65 then
+      some ((if (rest.getLast?.getD 0) % 2 = 1 then 0x03 else 0x02) :: rest.take 32)
+    else none
+
+def h160Nat (bs : Bytes) : Nat := beVal (Ripemd160.hash160 bs)
+
+def showOptRes : Option Res → String
+  | some r => showRes r
+  | none => "fault:badarg"
+
+
+/-! ### stack items and JSON values -/
+
+def pInt : P Int
+  | [] => none
+  | t :: r => t.toInt?.map (·, r)
+
+def pBytesTok : P Bytes
+  | [] => none
+  | t :: r => (Hex.decode t).map (·, r)
+
+def pItemF : Nat → P Item
+  | 0, _ => none
+  | f+1, ts => match ts with
+    | [] => none
+    | t :: r =>
+      if t == "N" then some (.null, r)
+      else if t == "T" then some (.bool true, r)
+      else if t == "F" then some (.bool false, r)
+      else if t == "M" then some (.map, r)
+      else if t == "X" then some (.other, r)
+      else if t == "I" then (pInt r).map fun (n, r') => (.int n, r')
+      else if t == "S" then (pBytesTok r).map fun (b, r') => (.bytes b, r')
+      else if t == "U" then (pBytesTok r).map fun (b, r') => (.buffer b, r')
+      else if t == "A" then (pCounted (pItemF f) r).map fun (xs, r') => (.array xs, r')
+      else if t == "R" then (pCounted (pItemF f) r).map fun (xs, r') => (.struct xs, r')
+      else none
+
+def pItem : P Item := fun ts => pItemF (ts.length + 1) ts
+
+def bytesToChars (bs : Bytes) : List Char := bs.map fun b => Char.ofNat b.toNat
+
+def pCharsTok : P (List Char)
+  | [] => none
+  | t :: r => (Hex.decode t).map fun bs => (bytesToChars bs, r)
+
+def pJsonF : Nat → P J
+  | 0, _ => none
+  | f+1, ts => match ts with
+    | [] => none
+    | t :: r =>
+      if t == "n" then some (.null, r)
+      else if t == "t" then some (.bool true, r)
+      else if t == "f" then some (.bool false, r)
+      else if t == "i" then (pInt r).map fun (n, r') => (.num n, r')
+      else if t == "s" then (pCharsTok r).map fun (s, r') => (.str s, r')
+      else if t == "a" then (pCounted (pJsonF f) r).map fun (xs, r') => (.arr xs, r')
+      else if t == "o" then
+        (pCounted (fun ts' => do
+          let (k, r1) ← pCharsTok ts'
+          let (v, r2) ← pJsonF f r1
+          pure ((k, v), r2)) r).map fun (fs, r') => (.obj fs, r')
+      else none
+
+def pJson : P J := fun ts => pJsonF (ts.length + 1) ts
+
+/-- the driver's stand-in for `keys.NewPublicKeyFromBytes` on a whole byte string, as the number of the
+compressed form. -/
+def decKeyNum (bs : Bytes) : Option Key := (decKeyAny bs).map beVal
+
+def showRuleRes : Option Rule → String
+  | some r => s!"ok {r.action} " ++ showCond r.cond
+  | none => "err"
+
+def runX (k : Hash → Option (List Key)) (ic : IC) : VM → List XOp → List String → List String
+  | _, [], acc => acc.reverse
+  | v, x :: xs, acc =>
+    match x with
+    | .m op => match v.step op with
+      | .ok v' => runX k ic v' xs acc
+      | .error f => (showFault f :: acc).reverse
+    | .ob => runX k ic v xs (showObs v :: acc)
+    | .oi => runX k ic v xs (showInfo v :: acc)
+    | .fe n => runX k ic v xs ((if v.flags == some n then "true" else "false") :: acc)
+    | .ch h => match checkWitnessVM k ic v h with
+      | none => ("fault:nocontext" :: acc).reverse
+      | some r => match r with
+        | .ok _ => runX k ic v xs (showRes r :: acc)
+        | .err _ => (showRes r :: acc).reverse
+    | .cq arg => match checkWitnessArgVM h160Nat decKeyAny k ic v arg with
+      | none => ("fault:nocontext" :: acc).reverse
+      | some r => match r with
+        | some (.ok _) => runX k ic v xs acc
+        | _ => (showOptRes r :: acc).reverse
+    | .cw arg => match checkWitnessArgVM h160Nat decKeyAny k ic v arg with
+      | none => ("fault:nocontext" :: acc).reverse
+      | some r => match r with
+        | some (.ok _) => runX k ic v xs (showOptRes r :: acc)
+        | _ => (showOptRes r :: acc).reverse
+
+def stepX (rest : List String) : Option String := do
+  let (cs, r) ← pCounted pContract rest
+  let (us, r) ← pOptSigners "U" r
+  let (tx, r) ← pOptSigners "T" r
+  let xs ← pXOps (r.length + 1) r
+  pure (String.intercalate " " (runX (lookupContract cs) ⟨us, tx⟩ VM.empty xs []))
+
 def step (tbl : Array Env) (ws : List String) : Array Env × String :=
   match ws with
   | ["case", k] => (#[], s!"case {k}")
@@ -197,6 +431,24 @@ def step (tbl : Array Env) (ws : List String) : Array Env × String :=
       | some (c, r) => (tbl, s!"ok {showCond c} {Hex.encode r}")
       | none => (tbl, "err")
     | _, _ => (tbl, "bad-op")
+  | "rsi" :: rest =>
+    match pItem rest with
+    | some (it, []) => (tbl, showRuleRes (ruleFromItem decKeyNum it))
+    | _ => (tbl, "bad-op")
+  | "rjs" :: rest =>
+    match pJson rest with
+    | some (v, []) => (tbl, showRuleRes (ruleFromJ decKeyNum v))
+    | _ => (tbl, "bad-op")
+  | "cjs" :: rest =>
+    match pJson rest with
+    | some (v, []) => (tbl, match condFromJ decKeyNum maxConditionNesting v with
+        | some c => "ok " ++ showCond c
+        | none => "err")
+    | _ => (tbl, "bad-op")
+  | "x" :: rest =>
+    match stepX rest with
+    | some out => (tbl, if out.isEmpty then "-" else out)
+    | none => (tbl, "bad-op")
   | _ => (tbl, "bad-op")
 
 def main : IO Unit := Proto.run (#[] : Array Env) step
